@@ -15,6 +15,7 @@ import (
 	"sync/atomic"
 	"time"
 
+	"google.golang.org/genproto/googleapis/api/httpbody"
 	"google.golang.org/grpc"
 	"google.golang.org/grpc/codes"
 	gzipenc "google.golang.org/grpc/encoding/gzip"
@@ -139,7 +140,15 @@ func echoSpecs() []*MethodSpec {
 		setB(r, "data", fieldBytes(m, "data"))
 		return st.SendMsg(r)
 	}
+	// Asset answers with one package-level slice every time (a static file, a cache entry)
+	asset := func(ctx context.Context, in *dynamicpb.Message) (proto.Message, error) {
+		hb := dynamicpb.NewMessage(c13HttpBodyDesc)
+		hb.Set(hb.Descriptor().Fields().ByName("content_type"), protoreflect.ValueOfString("application/x-asset"))
+		hb.Set(hb.Descriptor().Fields().ByName("data"), protoreflect.ValueOfBytes(c13Asset))
+		return hb, nil
+	}
 	return []*MethodSpec{
+		{Name: "Asset", In: "Req", Out: "google.api.HttpBody", Unary: asset, Rule: getRule("/c13/asset")},
 		{Name: "Early", In: "Req", Out: "Reply", ClientStream: true, ServerStream: true, Stream: early},
 		{Name: "Unary", In: "Req", Out: "Reply", Unary: unary, Rule: postRule("/c13/unary/{name}", "*")},
 		{Name: "Up", In: "Req", Out: "Reply", ClientStream: true, Stream: up, Rule: postRule("/c13/up", "*")},
@@ -148,6 +157,10 @@ func echoSpecs() []*MethodSpec {
 		{Name: "Bidi", In: "Req", Out: "Reply", ClientStream: true, ServerStream: true, Stream: bidi, Rule: postRule("/c13/bidi", "*")},
 	}
 }
+
+var c13Asset = []byte(strings.Repeat("static asset bytes that must never change; ", 8))
+var c13AssetCopy = append([]byte(nil), c13Asset...)
+var c13HttpBodyDesc = httpbody.File_google_api_httpbody_proto.Messages().ByName("HttpBody")
 
 func withService(ms []*MethodSpec, svc string) []*MethodSpec {
 	out := make([]*MethodSpec, len(ms))
@@ -244,7 +257,7 @@ func stressC13(seed int64, d time.Duration) *StressReport {
 		return fieldBytes(out, "data"), out.Get(out.Descriptor().Fields().ByName("text")).String(), int(out.Get(out.Descriptor().Fields().ByName("n")).Int()), err
 	}
 
-	var counts [12]int64
+	var counts [16]int64
 	scenarios := []func(rng *rand.Rand, id int){
 		// 0: HTTP unary, JSON or protobuf, identity or gzip request body
 		func(rng *rand.Rand, id int) {
@@ -293,6 +306,10 @@ func stressC13(seed int64, d time.Duration) *StressReport {
 			}
 			ct := map[string]string{"proto": "application/protobuf", "json": "application/json"}[codec]
 			r := httptest.NewRequest("POST", "/c13/up", nil)
+			if rng.Intn(2) == 0 { // gzip request stream: the pooled decompressor is read to its end
+				body = gzipBytes(body)
+				r.Header.Set("Content-Encoding", "gzip")
+			}
 			r.Body = &coalescedBody{data: body}
 			r.ContentLength = -1
 			r.Header.Set("Content-Type", ct)
@@ -531,6 +548,14 @@ func stressC13(seed int64, d time.Duration) *StressReport {
 		},
 	}
 
+	// 6: a handler that answers with the same slice every time
+	scenarios = append(scenarios, func(rng *rand.Rand, id int) {
+		rec, pn := serveOn(fx.Mux, httptest.NewRequest("GET", "/c13/asset", nil))
+		if pn != nil || rec.Code != 200 || !bytes.Equal(rec.Body.Bytes(), c13AssetCopy) {
+			rep.fail("C13/asset/foreign-bytes", "GET /c13/asset (the handler replies with one long-lived slice)", fmt.Sprintf("%d %q panic=%v", rec.Code, truncS(rec.Body.String(), 80), pn), "the asset", "a reply built from a long-lived slice carries other bytes: the handler's slice was recycled through the buffer pool")
+		}
+		atomic.AddInt64(&counts[6], 1)
+	})
 	// 5: proxied bidi where the backend finishes first and the client side then breaks
 	scenarios = append(scenarios, func(rng *rand.Rand, id int) {
 		p := payload(rng)
@@ -583,7 +608,10 @@ func stressC13(seed int64, d time.Duration) *StressReport {
 	time.Sleep(d)
 	close(stop)
 	wg.Wait()
-	names := []string{"http-unary", "http-client-stream", "httpbody-upload", "grpc-real-server", "raw-frames", "proxy-client-breaks-after-backend-done"}
+	names := []string{"http-unary", "http-client-stream", "httpbody-upload", "grpc-real-server", "raw-frames", "proxy-client-breaks-after-backend-done", "static-asset-reply"}
+	if !bytes.Equal(c13Asset, c13AssetCopy) {
+		rep.fail("C13/asset/handler-slice-overwritten", "the slice the Asset handler hands out, after the run", fmt.Sprintf("%q", truncS(string(c13Asset), 80)), "unchanged", "the handler's own slice was written by other requests")
+	}
 	for i, n := range names {
 		rep.eval(n, int(counts[i]))
 	}
